@@ -544,7 +544,24 @@ pub(crate) mod util {
     }
 }
 
+/// The number of rule invocations the parser may spend on a source file of `input_len` bytes.
+///
+/// The parser backtracks without memoisation. When a deeply nested construct turns out to be
+/// malformed (a missing operand inside the innermost of sixteen nested callbacks, an unclosed
+/// `[[[[...`), every enclosing level is tried a second time under another rule and the work doubles
+/// per level: seconds at depth 16, hours at depth 25, before the syntax error is reported. Well
+/// formed input needs far fewer than a thousand invocations per byte, so the budget only ends
+/// parses that would not finish in reasonable time; they fail with "call limit reached".
+fn parse_budget(input_len: usize) -> Option<std::num::NonZeroUsize> {
+    const BASE: usize = 1 << 23;
+    const PER_BYTE: usize = 1 << 10;
+
+    std::num::NonZeroUsize::new(BASE.saturating_add(input_len.saturating_mul(PER_BYTE)))
+}
+
 pub(crate) fn root_node_from_str(input_str: &str, user_data: Rc<AssocFileData>) -> Result<Node> {
+    pest::set_call_limit(parse_budget(input_str.len()));
+
     let x = util::parse_with_userdata_features(Rule::file, input_str, user_data);
 
     x.and_then(|x| x.single().map_err(Box::new))
